@@ -36,6 +36,22 @@ fn verif_skipped_insert<L: Clone + Ord>(set: &mut SkippedSet<L>, pattern: &[L]) 
     set.insert(pattern.to_vec())
 }
 
+//@impl src/nfa_builder.rs impl EdgeLabel for u8
+//@keeptrait
+    spec fn nb(&self) -> nat { 1 }
+    proof fn lemma_nb(c: Self) {}
+//@fn num_bytes
+//@ret r
+//@endimpl
+
+// char: contract assumed here, proved complete on the real code by the Kani harness num_bytes_labels (all chars)
+impl EdgeLabel for char {
+    spec fn nb(&self) -> nat { let v = *self as u32; if v < 0x80 { 1 } else if v < 0x800 { 2 } else if v < 0x10000 { 3 } else { 4 } }
+    proof fn lemma_nb(c: Self) {}
+    #[verifier::external_body]
+    fn num_bytes(&self) -> (r: usize) { self.len_utf8() }
+}
+
 //@include ghost_trie.rs
 
 //@impl src/nfa_builder.rs impl<L, V> NfaBuilder<L, V>
